@@ -293,8 +293,12 @@ def run(repo: Repo, rep: Report, tier: str) -> None:
     n += rule_expand(repo, rep)
     n += rule_forward(repo, rep)
     n += rule_fading_noise(repo, rep)
-    from ..speciallint import lint_rng_discipline
+    from ..speciallint import lint_falsy_default, lint_rng_discipline
 
+    for cname_ in ("FlatFadingChannel", "RayleighFadingChannel", "RicianFadingChannel", "LogNormalFadingChannel"):
+        ci2_ = repo.module(AN).classes.get(cname_)
+        if ci2_ is not None and ci2_.methods.get("__init__") is not None:
+            n += lint_falsy_default(rep, ci2_.methods["__init__"], "GAIN")
     for cname in ("FlatFadingChannel",):
         ci_ = repo.cls(AN, cname)
         for m_ in ci_.methods.values():
